@@ -16,6 +16,9 @@ theories/Model/EvalImpl.vos theories/Model/EvalImpl.vok theories/Model/EvalImpl.
 theories/Model/Expr.vo theories/Model/Expr.glob theories/Model/Expr.v.beautified theories/Model/Expr.required_vo: theories/Model/Expr.v theories/Spec/BV.vo
 theories/Model/Expr.vio: theories/Model/Expr.v theories/Spec/BV.vio
 theories/Model/Expr.vos theories/Model/Expr.vok theories/Model/Expr.required_vos: theories/Model/Expr.v theories/Spec/BV.vos
+theories/Model/Ic3.vo theories/Model/Ic3.glob theories/Model/Ic3.v.beautified theories/Model/Ic3.required_vo: theories/Model/Ic3.v 
+theories/Model/Ic3.vio: theories/Model/Ic3.v 
+theories/Model/Ic3.vos theories/Model/Ic3.vok theories/Model/Ic3.required_vos: theories/Model/Ic3.v 
 theories/Model/Simplify.vo theories/Model/Simplify.glob theories/Model/Simplify.v.beautified theories/Model/Simplify.required_vo: theories/Model/Simplify.v theories/Model/EvalImpl.vo
 theories/Model/Simplify.vio: theories/Model/Simplify.v theories/Model/EvalImpl.vio
 theories/Model/Simplify.vos theories/Model/Simplify.vok theories/Model/Simplify.required_vos: theories/Model/Simplify.v theories/Model/EvalImpl.vos
@@ -34,12 +37,15 @@ theories/Proofs/EvalProofs.vos theories/Proofs/EvalProofs.vok theories/Proofs/Ev
 theories/Proofs/ExprLemmas.vo theories/Proofs/ExprLemmas.glob theories/Proofs/ExprLemmas.v.beautified theories/Proofs/ExprLemmas.required_vo: theories/Proofs/ExprLemmas.v theories/Model/Expr.vo
 theories/Proofs/ExprLemmas.vio: theories/Proofs/ExprLemmas.v theories/Model/Expr.vio
 theories/Proofs/ExprLemmas.vos theories/Proofs/ExprLemmas.vok theories/Proofs/ExprLemmas.required_vos: theories/Proofs/ExprLemmas.v theories/Model/Expr.vos
+theories/Proofs/Ic3Proofs.vo theories/Proofs/Ic3Proofs.glob theories/Proofs/Ic3Proofs.v.beautified theories/Proofs/Ic3Proofs.required_vo: theories/Proofs/Ic3Proofs.v theories/Model/Ic3.vo
+theories/Proofs/Ic3Proofs.vio: theories/Proofs/Ic3Proofs.v theories/Model/Ic3.vio
+theories/Proofs/Ic3Proofs.vos theories/Proofs/Ic3Proofs.vok theories/Proofs/Ic3Proofs.required_vos: theories/Proofs/Ic3Proofs.v theories/Model/Ic3.vos
 theories/Proofs/ReachFixProofs.vo theories/Proofs/ReachFixProofs.glob theories/Proofs/ReachFixProofs.v.beautified theories/Proofs/ReachFixProofs.required_vo: theories/Proofs/ReachFixProofs.v theories/Spec/ReachFix.vo theories/Proofs/BfsProofs.vo theories/Proofs/EvalProofs.vo
 theories/Proofs/ReachFixProofs.vio: theories/Proofs/ReachFixProofs.v theories/Spec/ReachFix.vio theories/Proofs/BfsProofs.vio theories/Proofs/EvalProofs.vio
 theories/Proofs/ReachFixProofs.vos theories/Proofs/ReachFixProofs.vok theories/Proofs/ReachFixProofs.required_vos: theories/Proofs/ReachFixProofs.v theories/Spec/ReachFix.vos theories/Proofs/BfsProofs.vos theories/Proofs/EvalProofs.vos
 theories/Props/C06.vo theories/Props/C06.glob theories/Props/C06.v.beautified theories/Props/C06.required_vo: theories/Props/C06.v theories/Model/EvalImpl.vo theories/Proofs/EvalProofs.vo theories/Proofs/EvalImplProofs.vo
 theories/Props/C06.vio: theories/Props/C06.v theories/Model/EvalImpl.vio theories/Proofs/EvalProofs.vio theories/Proofs/EvalImplProofs.vio
 theories/Props/C06.vos theories/Props/C06.vok theories/Props/C06.required_vos: theories/Props/C06.v theories/Model/EvalImpl.vos theories/Proofs/EvalProofs.vos theories/Proofs/EvalImplProofs.vos
-theories/Props/C10.vo theories/Props/C10.glob theories/Props/C10.v.beautified theories/Props/C10.required_vo: theories/Props/C10.v theories/Spec/ReachFix.vo theories/Proofs/BfsProofs.vo theories/Proofs/ReachFixProofs.vo
-theories/Props/C10.vio: theories/Props/C10.v theories/Spec/ReachFix.vio theories/Proofs/BfsProofs.vio theories/Proofs/ReachFixProofs.vio
-theories/Props/C10.vos theories/Props/C10.vok theories/Props/C10.required_vos: theories/Props/C10.v theories/Spec/ReachFix.vos theories/Proofs/BfsProofs.vos theories/Proofs/ReachFixProofs.vos
+theories/Props/C10.vo theories/Props/C10.glob theories/Props/C10.v.beautified theories/Props/C10.required_vo: theories/Props/C10.v theories/Spec/ReachFix.vo theories/Proofs/BfsProofs.vo theories/Proofs/ReachFixProofs.vo theories/Model/Ic3.vo theories/Proofs/Ic3Proofs.vo
+theories/Props/C10.vio: theories/Props/C10.v theories/Spec/ReachFix.vio theories/Proofs/BfsProofs.vio theories/Proofs/ReachFixProofs.vio theories/Model/Ic3.vio theories/Proofs/Ic3Proofs.vio
+theories/Props/C10.vos theories/Props/C10.vok theories/Props/C10.required_vos: theories/Props/C10.v theories/Spec/ReachFix.vos theories/Proofs/BfsProofs.vos theories/Proofs/ReachFixProofs.vos theories/Model/Ic3.vos theories/Proofs/Ic3Proofs.vos
